@@ -7,6 +7,7 @@ import (
 	"flag"
 	"fmt"
 	"os"
+	"runtime/pprof"
 	"sort"
 
 	"verif/internal/core"
@@ -28,7 +29,15 @@ func main() {
 	tier := flag.String("tier", "quick", "quick | thorough")
 	replay := flag.String("replay", "", "replay file written by an earlier run")
 	list := flag.Bool("list", false, "list checks")
+	prof := flag.String("cpuprofile", "", "write a CPU profile (diagnosis of the harness itself)")
 	flag.Parse()
+	if *prof != "" {
+		f, err := os.Create(*prof)
+		if err == nil {
+			pprof.StartCPUProfile(f)
+			defer pprof.StopCPUProfile()
+		}
+	}
 	if *list {
 		var ids []string
 		for k := range checks {
@@ -73,5 +82,7 @@ func main() {
 		return
 	}
 	r := core.NewRun(*id, *tier)
-	os.Exit(c.run(r))
+	rc := c.run(r)
+	pprof.StopCPUProfile()
+	os.Exit(rc)
 }
